@@ -40,11 +40,14 @@ def make_core(phy="sdr_1_1", bankbits=1, rowbits=11, colbits=4, nports=2, timing
               nranks=1, ctrl=None, clk_freq=100e6, port_kwargs=None):
     """real LiteDRAMController + LiteDRAMCrossbar + nports native ports"""
     from migen import Module
-    kw = dict(PHY_PRESETS[phy]) if isinstance(phy, str) else dict(phy)
-    kw.update(dfi_databits=dfi_databits, nranks=nranks)
-    ps = phy_settings(**kw)
+    if isinstance(phy, PhySettings):
+        ps = phy
+    else:
+        kw = dict(PHY_PRESETS[phy]) if isinstance(phy, str) else dict(phy)
+        kw.update(dfi_databits=dfi_databits, nranks=nranks)
+        ps = phy_settings(**kw)
     gs = GeomSettings(bankbits=bankbits, rowbits=rowbits, colbits=colbits)
-    ts = timing_settings(**(timing or {}))
+    ts = timing if isinstance(timing, TimingSettings) else timing_settings(**(timing or {}))
     cs = ControllerSettings(**(ctrl or {}))
 
     class Core(Module):
